@@ -23,7 +23,7 @@ ASSUMPTIONS = ["statistical channel: 2e5 draws per law, 7 standard errors per mo
 N = {"quick": 96, "thorough": 2400}
 REQUIRE = {"quick": {"lookup_events": 1500, "law_events": 24, "law_correlated": 12, "decoupled_events": 600,
                      "immutability_events": 1000, "branin_zero_inputs": 30, "dataset_checks": 4,
-                     "normalize_events": 200, "closest_events": 100}}
+                     "normalize_events": 200, "closest_events": 100, "normalize_out_of_bounds_events": 100}}
 TIMEOUT = {"quick": 900, "thorough": 3600}
 NDRAW = 200_000
 NSE = 7.0
@@ -309,11 +309,15 @@ def check_normalize(mon, rng):
         lo = rng.normal(size=d) * 10 ** rng.uniform(-2, 3, size=d)
         width = 10 ** rng.uniform(-3, 4, size=d)
         bounds = [(float(a), float(a + w)) for a, w in zip(lo, width)]
-        x = lo + rng.random((n, d)) * width
+        inside = bool(rng.random() < 0.5)
+        # half of the cases leave the bounds: the maps are affine, hence mutual inverses everywhere
+        x = lo + (rng.random((n, d)) if inside else rng.uniform(-1.0, 2.0, size=(n, d))) * width
         x0 = x.copy()
         u = normalize(x, bounds)
         back = unnormalize(u, bounds)
-        u2 = rng.random((n, d))
+        u2 = rng.random((n, d)) if inside else rng.uniform(-1.0, 2.0, size=(n, d))
+        if not inside:
+            mon.count("normalize_out_of_bounds_events")
         u20 = u2.copy()
         fwd = normalize(unnormalize(u2, bounds), bounds)
         mon.count("normalize_events")
@@ -322,7 +326,7 @@ def check_normalize(mon, rng):
         scale = np.abs(lo) + width
         if not np.array_equal(x, x0) or not np.array_equal(u2, u20):
             mon.violation("normalize:input-mutated", "input changed", {"bounds": bounds})
-        if (u < -1e-12).any() or (u > 1 + 1e-12).any():
+        if inside and ((u < -1e-12).any() or (u > 1 + 1e-12).any()):
             mon.violation("normalize:out-of-unit", f"{u}", {"bounds": bounds, "x": x0})
         if (np.abs(back - x0) > 1e-12 * scale * 8).any():
             mon.violation("normalize:roundtrip", f"unnormalize(normalize(x)) off by {np.abs(back - x0).max()}", {"bounds": bounds, "x": x0})
